@@ -16,7 +16,9 @@ class DimwiseCheck(Check):
     block = 8
     run_timeout_s = 120.0
     real, stub = REAL, STUB
-    excluded_configs = ["lmax == 1 (initialize_refinement asserts lmax > 1)",
+    excluded_configs = ["local grid families in extend-split other than Trapezoidal, Lagrange(p=2), Clenshaw-Curtis, Gauss-Legendre, Simpson: BSplineGrid asserts in this environment, LejaGrid takes minutes per run",
+                        "global grid families other than GlobalTrapezoidalGrid in the dimension-wise strategy (Simpson, Romberg, balanced Romberg, modified Lagrange do not run in the pinned environment without extra options)",
+                        "lmax == 1 (initialize_refinement asserts lmax > 1)",
                         "coarsening versions 0, 1, 4, 5 (not among the versions the properties name; 4/5 print and assert internally)",
                         "grid families other than GlobalTrapezoidalGrid for the structure/combination monitors"]
 
@@ -185,6 +187,10 @@ class C05(DimwiseCheck):
             from engines import extendsplit_sim as ES
             cfg = ES.gen_cfg(r, tier)
             cfg["version"] = 0          # the statement names extend-split in its default coarsening version
+            cfg["grid"] = r.choice(["TrapezoidalGrid"] * 6 + ES.LOCAL_GRIDS[1:])     # "every grid type" that runs in this strategy here
+            if cfg["grid"] != "TrapezoidalGrid":
+                cfg["boundary"] = True
+                cfg["single_dim"] = False
             if cfg["lmin"] == cfg["lmax"]:
                 cfg["automatic"] = False   # automatic decision at lmin == lmax raises (known finding of C07), not this property's subject
             cfg["max_leaves"] = 10 ** 6
